@@ -4,6 +4,7 @@ import hashlib
 import json
 import logging
 import os
+import pathlib
 import random
 import shutil
 import sys
@@ -96,6 +97,9 @@ def load_case(cid, what, text, tmproot, encoding="utf-8"):
             f.write(data)
         collection.install_fake_s3(collection.FakeS3({"bkt": {"k/doc.mos.xml": data}}))
         rec("file", lambda: MosFile.from_file(p))
+        rec("file-path", lambda: MosFile.from_file(pathlib.Path(p)))
+        rel = os.path.relpath(p)
+        rec("file-relative", lambda: MosFile.from_file(rel))
         if encoding == "utf-8":
             rec("str", lambda: MosFile.from_string(text))
             rec("reader-str", lambda: MosReader.from_string(text).mos_object)
